@@ -74,15 +74,43 @@ func (x *Ctx) calleesInRegion(fn *ssa.Function, head *ssa.BasicBlock) []string {
 		if !head.Dominates(b) {
 			continue
 		}
-		for _, ins := range b.Instrs {
-			if c, ok := ins.(*ssa.Call); ok {
-				if callee := c.Call.StaticCallee(); callee != nil && x.W.InLib(callee) {
-					out = append(out, callee.Name())
-				}
-			}
-		}
+		out = append(out, x.calleesOfBlock(b, map[*ssa.Function]bool{fn: true})...)
 	}
 	return out
+}
+
+// dispatchLeaves: the unexported functions that R03a's tables name; every other unexported helper is looked through.
+var dispatchLeaves = map[string]bool{"readSimpleValue": true, "borrowValueReader": true, "returnValueReader": true}
+
+// calleesOfBlock: the in-library callees of one block; an unexported helper that is not itself one of the names the
+// dispatch tables speak about is replaced by what it calls (so `h.readChildObject(data)` counts as borrow,
+// ReadObject, return).
+func (x *Ctx) calleesOfBlock(b *ssa.BasicBlock, seen map[*ssa.Function]bool) []string {
+	var out []string
+	for _, ins := range b.Instrs {
+		c, ok := ins.(*ssa.Call)
+		if !ok {
+			continue
+		}
+		callee := c.Call.StaticCallee()
+		if callee == nil || !x.W.InLib(callee) {
+			continue
+		}
+		if x.isPrivateHelper(callee) && !dispatchLeaves[callee.Name()] && !seen[callee] {
+			seen[callee] = true
+			for _, hb := range callee.Blocks {
+				out = append(out, x.calleesOfBlock(hb, seen)...)
+			}
+			continue
+		}
+		out = append(out, callee.Name())
+	}
+	return out
+}
+
+// isPrivateHelper: an unexported library function with a body that is not a generated machine.
+func (x *Ctx) isPrivateHelper(fn *ssa.Function) bool {
+	return fn != nil && x.W.InLib(fn) && len(fn.Blocks) > 0 && fn.Object() != nil && !fn.Object().Exported() && x.Machine(fn.Name()) == nil
 }
 
 func sameSet(a []string, b ...string) bool {
@@ -255,32 +283,67 @@ func (x *Ctx) returnsStringCopy(fn *ssa.Function) bool {
 // dispatchArgs: the child readers and readSimpleValue are given the slice data[p:] that starts at the token, and
 // readSimpleValue receives the peeked token type itself.
 func (x *Ctx) dispatchArgs(fn *ssa.Function, tkn ssa.Value, via *ssa.Call) string {
+	// reader calls of fn and of the private helpers it hands its data to, with arguments resolved to fn's own values
+	type rcall struct {
+		name      string
+		data, tkn ssa.Value
+	}
+	var calls []rcall
+	var collect func(f *ssa.Function, bind map[ssa.Value]ssa.Value, depth int)
+	collect = func(f *ssa.Function, bind map[ssa.Value]ssa.Value, depth int) {
+		res := func(v ssa.Value) ssa.Value {
+			if b, ok := bind[v]; ok {
+				return b
+			}
+			return v
+		}
+		for _, b := range f.Blocks {
+			for _, ins := range b.Instrs {
+				c, ok := ins.(*ssa.Call)
+				if !ok {
+					continue
+				}
+				callee := c.Call.StaticCallee()
+				if callee == nil {
+					continue
+				}
+				switch callee.Name() {
+				case "ReadObject", "ReadArray", "readSimpleValue":
+					rc := rcall{name: callee.Name()}
+					if len(c.Call.Args) >= 2 {
+						rc.data = res(c.Call.Args[1])
+					}
+					if len(c.Call.Args) >= 3 {
+						rc.tkn = res(c.Call.Args[2])
+					}
+					calls = append(calls, rc)
+				default:
+					if x.isPrivateHelper(callee) && !dispatchLeaves[callee.Name()] && depth < 3 {
+						nb := map[ssa.Value]ssa.Value{}
+						for i, p := range callee.Params {
+							if i < len(c.Call.Args) {
+								nb[p] = res(c.Call.Args[i])
+							}
+						}
+						collect(callee, nb, depth+1)
+					}
+				}
+			}
+		}
+	}
+	collect(fn, nil, 0)
 	var sl ssa.Value
-	for _, b := range fn.Blocks {
-		for _, ins := range b.Instrs {
-			c, ok := ins.(*ssa.Call)
-			if !ok {
-				continue
-			}
-			callee := c.Call.StaticCallee()
-			if callee == nil {
-				continue
-			}
-			switch callee.Name() {
-			case "ReadObject", "ReadArray", "readSimpleValue":
-				if len(c.Call.Args) < 2 {
-					return "reader called without data"
-				}
-				d := c.Call.Args[1]
-				if sl == nil {
-					sl = d
-				} else if sl != d {
-					return "the branches read different slices of the input"
-				}
-				if callee.Name() == "readSimpleValue" && (len(c.Call.Args) < 3 || c.Call.Args[2] != tkn) {
-					return "readSimpleValue is not given the token type that was peeked"
-				}
-			}
+	for _, rc := range calls {
+		if rc.data == nil {
+			return "reader called without data"
+		}
+		if sl == nil {
+			sl = rc.data
+		} else if sl != rc.data {
+			return "the branches read different slices of the input"
+		}
+		if rc.name == "readSimpleValue" && rc.tkn != tkn {
+			return "readSimpleValue is not given the token type that was peeked"
 		}
 	}
 	// when the switch lives in a helper, the data it reads must be the parameter the caller fills with the re-sliced data
@@ -715,7 +778,7 @@ func (x *Ctx) unescapeKeyShape(fn *ssa.Function) string {
 // nullGuard: R03c.
 func (x *Ctx) nullGuard(r *core.Result, rs *core.RuleStat, name string) {
 	fn := x.Func(name)
-	if fn == nil {
+	if fn == nil || len(fn.Params) < 2 {
 		r.Undecided(rs, name, "-", "function not found")
 		return
 	}
@@ -726,75 +789,239 @@ func (x *Ctx) nullGuard(r *core.Result, rs *core.RuleStat, name string) {
 			nullName = v
 		}
 	}
-	// find: If(len(container) == 0) -> ... NextTokenType(data) ... If(tknErr == nil) -> If(tkn == NullType) -> return non-nil error
-	found := false
+	// the peek at the function's own data
+	var peek *ssa.Call
 	for _, b := range fn.Blocks {
+		for _, ins := range b.Instrs {
+			if c, ok := ins.(*ssa.Call); ok && c.Call.StaticCallee() != nil && c.Call.StaticCallee().Name() == "NextTokenType" && x.W.InLib(c.Call.StaticCallee()) {
+				if len(c.Call.Args) == 1 && unspill(c.Call.Args[0]) == ssa.Value(fn.Params[1]) {
+					peek = c
+				} else {
+					r.Fail(rs, name+":null-data", x.W.Pos(c.Pos()), "the null re-check does not look at the function's own data")
+					return
+				}
+			}
+		}
+	}
+	if peek == nil {
+		r.Fail(rs, name+":null", x.W.Pos(fn.Pos()), "no re-check of the first token against null: the handler machines accept the literal null, so "+name+" would succeed on it")
+		return
+	}
+	// An edge certifies "not (container empty and first token null)" when it is taken only if the container is
+	// non-empty, the peek failed, or the peeked token is not null. Success returns must not be reachable from the
+	// entry without passing such an edge.
+	certifies := func(b *ssa.BasicBlock, succ int) bool {
 		iff, ok := b.Instrs[len(b.Instrs)-1].(*ssa.If)
+		if !ok {
+			return false
+		}
+		be, ok := iff.Cond.(*ssa.BinOp)
+		if !ok {
+			return false
+		}
+		onTrue := succ == 0
+		// len(container) ? k
+		if lc, ok := be.X.(*ssa.Call); ok {
+			if bi, isB := lc.Call.Value.(*ssa.Builtin); isB && bi.Name() == "len" && len(lc.Call.Args) == 1 && x.isContainerField(lc.Call.Args[0]) {
+				k, okc := constBig(be.Y)
+				if !okc {
+					return false
+				}
+				kv := k.Int64()
+				switch {
+				case be.Op == token.EQL && kv == 0, be.Op == token.LEQ && kv == 0, be.Op == token.LSS && kv == 1:
+					return !onTrue
+				case be.Op == token.NEQ && kv == 0, be.Op == token.GTR && kv == 0, be.Op == token.GEQ && kv == 1:
+					return onTrue
+				}
+			}
+			return false
+		}
+		ex, ok := be.X.(*ssa.Extract)
+		if !ok || ex.Tuple != ssa.Value(peek) {
+			return false
+		}
+		switch {
+		case isErrT(ex.Type()) && isNilConst(be.Y):
+			return (be.Op == token.NEQ && onTrue) || (be.Op == token.EQL && !onTrue)
+		case ex.Index == 0:
+			if k, okc := constBig(be.Y); okc && fmt.Sprint(k) == nullName {
+				return (be.Op == token.NEQ && onTrue) || (be.Op == token.EQL && !onTrue)
+			}
+		}
+		return false
+	}
+	reach := map[*ssa.BasicBlock]bool{fn.Blocks[0]: true}
+	work := []*ssa.BasicBlock{fn.Blocks[0]}
+	for len(work) > 0 {
+		b := work[len(work)-1]
+		work = work[:len(work)-1]
+		for i, s := range b.Succs {
+			if certifies(b, i) || reach[s] {
+				continue
+			}
+			reach[s] = true
+			work = append(work, s)
+		}
+	}
+	succ := 0
+	for _, b := range fn.Blocks {
+		ret, ok := b.Instrs[len(b.Instrs)-1].(*ssa.Return)
+		if !ok {
+			continue
+		}
+		if x.returnsKnownError(ret) {
+			continue
+		}
+		succ++
+		if reach[b] {
+			r.Fail(rs, name+":null-return", x.W.Pos(ret.Pos()), "a return whose error may be nil is reachable with an empty container and without the first token having been found not to be null: the handler machines accept the literal null, so "+name+" would succeed on it")
+			return
+		}
+	}
+	if succ == 0 {
+		r.Undecided(rs, name+":returns", x.W.Pos(fn.Pos()), "no successful return found")
+		return
+	}
+	rs.OK(1)
+	rs.Sample(name + ": every successful return lies behind `container non-empty`, a failed peek, or `first token != null`")
+}
+
+// isContainerField: v is a load of a map- or slice-typed field of a ValueReader.
+func (x *Ctx) isContainerField(v ssa.Value) bool {
+	ld, ok := v.(*ssa.UnOp)
+	if !ok || ld.Op != token.MUL {
+		return false
+	}
+	fa, ok := ld.X.(*ssa.FieldAddr)
+	if !ok || structOfType(fa.X.Type()) == nil || structOfType(fa.X.Type()) != x.vrStruct() {
+		return false
+	}
+	switch ld.Type().Underlying().(type) {
+	case *types.Map, *types.Slice:
+		return true
+	}
+	return false
+}
+
+// returnsKnownError: the error a Return carries is known to be non-nil — a fresh or sentinel error, or a value that
+// a dominating test found non-nil; named results spilled into cells (functions with defer) are looked through.
+func (x *Ctx) returnsKnownError(ret *ssa.Return) bool {
+	if len(ret.Results) == 0 {
+		return false
+	}
+	b := ret.Block()
+	e := ret.Results[len(ret.Results)-1]
+	if !isErrT(e.Type()) {
+		return false
+	}
+	v := e
+	var cell *ssa.Alloc
+	if ld, ok := e.(*ssa.UnOp); ok && ld.Op == token.MUL {
+		if al, ok := ld.X.(*ssa.Alloc); ok {
+			cell = al
+			v = nil
+			for _, ins := range b.Instrs {
+				if st, ok := ins.(*ssa.Store); ok && st.Addr == ssa.Value(al) {
+					v = st.Val
+				}
+			}
+		}
+	}
+	if v != nil {
+		if x.knownNonNilError(v) || x.isErrExtractTested(v, b) || x.correlatedNonNil(v, b) {
+			return true
+		}
+		if ld, ok := v.(*ssa.UnOp); ok && ld.Op == token.MUL {
+			if al, ok := ld.X.(*ssa.Alloc); ok {
+				cell = al
+			} else {
+				return false
+			}
+		} else {
+			return false
+		}
+	}
+	if cell == nil {
+		return false
+	}
+	// the cell's current content was tested non-nil: a dominating `*cell != nil` edge with no store to the cell on
+	// the way from that edge to this block
+	for d := b; d != nil; d = d.Idom() {
+		dom := d.Idom()
+		if dom == nil {
+			break
+		}
+		iff, ok := dom.Instrs[len(dom.Instrs)-1].(*ssa.If)
 		if !ok {
 			continue
 		}
 		be, ok := iff.Cond.(*ssa.BinOp)
-		if !ok || be.Op != token.EQL {
+		if !ok || !isNilConst(be.Y) {
 			continue
 		}
-		k, okc := constBig(be.Y)
-		if !okc || fmt.Sprint(k) != nullName {
+		tl, ok := be.X.(*ssa.UnOp)
+		if !ok || tl.Op != token.MUL || tl.X != ssa.Value(cell) {
 			continue
 		}
-		ex, ok := be.X.(*ssa.Extract)
-		if !ok || ex.Index != 0 {
+		nonNil := dom.Succs[0]
+		if be.Op == token.EQL {
+			nonNil = dom.Succs[1]
+		} else if be.Op != token.NEQ {
 			continue
 		}
-		call, ok := ex.Tuple.(*ssa.Call)
-		if !ok || call.Call.StaticCallee() == nil || call.Call.StaticCallee().Name() != "NextTokenType" {
+		if !(nonNil == b || nonNil.Dominates(b)) || len(nonNil.Preds) != 1 {
 			continue
 		}
-		if len(call.Call.Args) != 1 || call.Call.Args[0] != ssa.Value(fn.Params[1]) {
-			r.Fail(rs, name+":null-data", x.W.Pos(call.Pos()), "the null re-check does not look at the function's own data")
-			return
-		}
-		tb := b.Succs[0]
-		if !x.blockReturnsNonNilError(tb) {
-			r.Fail(rs, name+":null-return", x.W.Pos(iff.Pos()), "a first token of type null does not lead to an error return")
-			return
-		}
-		// the re-check must be reached whenever the container is empty: dominated by `len(container) == 0` true edge and by tknErr == nil,
-		// and every nil-error return must be unreachable from the null branch (it returns directly) — and reachable only via
-		// (len != 0) or (tknErr != nil) or (tkn != null)
-		found = true
-		// the test chain must hang off `valLen == 0`
-		okChain := false
-		for d := b; d != nil; d = d.Idom() {
-			dom := d.Idom()
-			if dom == nil {
-				break
+		// no store to the cell after the tested load in dom, nor in the blocks between
+		clean := true
+		after := false
+		for _, ins := range dom.Instrs {
+			if ins == ssa.Instruction(tl) {
+				after = true
 			}
-			if i2, ok := dom.Instrs[len(dom.Instrs)-1].(*ssa.If); ok {
-				if b2, ok := i2.Cond.(*ssa.BinOp); ok && b2.Op == token.EQL {
-					if z, ok := constBig(b2.Y); ok && z.Sign() == 0 {
-						if lc, ok := b2.X.(*ssa.Call); ok {
-							if bi, ok := lc.Call.Value.(*ssa.Builtin); ok && bi.Name() == "len" && dom.Succs[0].Dominates(b) {
-								okChain = true
-							}
-						}
-					}
+			if st, ok := ins.(*ssa.Store); ok && after && st.Addr == ssa.Value(cell) {
+				clean = false
+			}
+		}
+		for _, mb := range b.Parent().Blocks {
+			if mb == b || !nonNil.Dominates(mb) && mb != nonNil {
+				continue
+			}
+			if !canReach(mb, b) {
+				continue
+			}
+			for _, ins := range mb.Instrs {
+				if st, ok := ins.(*ssa.Store); ok && st.Addr == ssa.Value(cell) {
+					clean = false
 				}
 			}
 		}
-		if !okChain {
-			r.Fail(rs, name+":null-chain", x.W.Pos(iff.Pos()), "the null re-check is not performed exactly when the container is empty")
-			return
+		// within b: stores before the returned load were handled above (v would be that store's value)
+		if clean {
+			return true
 		}
 	}
-	if !found {
-		r.Fail(rs, name+":null", x.W.Pos(fn.Pos()), "no re-check of the first token against null: the handler machines accept the literal null, so "+name+" would succeed on it")
-		return
+	return false
+}
+
+func canReach(from, to *ssa.BasicBlock) bool {
+	seen := map[*ssa.BasicBlock]bool{from: true}
+	work := []*ssa.BasicBlock{from}
+	for len(work) > 0 {
+		b := work[len(work)-1]
+		work = work[:len(work)-1]
+		if b == to {
+			return true
+		}
+		for _, s := range b.Succs {
+			if !seen[s] {
+				seen[s] = true
+				work = append(work, s)
+			}
+		}
 	}
-	// success returns must be dominated by the error test of the traversal and not bypass the null check:
-	// every Return with a possibly-nil error must be post-dominated... simpler: there is no nil-error return in blocks
-	// that dominate the `len == 0` test (i.e. before it).
-	rs.OK(1)
-	rs.Sample(name + ": empty container -> NextTokenType(data) -> null => error")
+	return false
 }
 
 // depthExactness: R03d — every recursive call guarded with the exact limit; top-level entry sets depth 1.
@@ -852,24 +1079,34 @@ func (x *Ctx) depthExactness(r *core.Result, rs *core.RuleStat) {
 		}
 		rs.Instances++
 		setOne, deferred := false, false
+		recv := ssa.Value(nil)
+		if len(fn.Params) > 0 {
+			recv = fn.Params[0]
+		}
+		for _, fs := range x.fieldStores(fn) {
+			if fs.Field == "depth" && fs.Base.isLeaf(recv) {
+				if k, ok := fs.Val.constInt(); ok && k == 1 {
+					setOne = true
+				}
+			}
+		}
 		for _, b := range fn.Blocks {
 			for _, ins := range b.Instrs {
-				switch t := ins.(type) {
-				case *ssa.Store:
-					if fa, ok := t.Addr.(*ssa.FieldAddr); ok {
-						if s := structOfType(fa.X.Type()); s != nil && s.Field(fa.Field).Name() == "depth" {
-							if k, ok := constBig(t.Val); ok && k.Int64() == 1 {
-								// under depth == 0
-								if dom := b.Idom(); dom != nil || b == fn.Blocks[0] {
-									setOne = true
-								}
-							}
-						}
+				t, ok := ins.(*ssa.Defer)
+				if !ok {
+					continue
+				}
+				// the deferred function — a closure or a method of the same reader — stores depth = 0
+				if mc, ok := t.Call.Value.(*ssa.MakeClosure); ok {
+					if cf, ok := mc.Fn.(*ssa.Function); ok && storesZeroDepth(cf) {
+						deferred = true
 					}
-				case *ssa.Defer:
-					if mc, ok := t.Call.Value.(*ssa.MakeClosure); ok {
-						if cf, ok := mc.Fn.(*ssa.Function); ok && storesZeroDepth(cf) {
-							deferred = true
+				} else if df := t.Call.StaticCallee(); df != nil && w.InLib(df) && len(t.Call.Args) > 0 && t.Call.Args[0] == recv && len(df.Params) > 0 {
+					for _, fs := range x.fieldStores(df) {
+						if fs.Field == "depth" && fs.Base.isLeaf(df.Params[0]) && fs.Always {
+							if k, ok := fs.Val.constInt(); ok && k == 0 {
+								deferred = true
+							}
 						}
 					}
 				}
